@@ -7,6 +7,10 @@ BASE = json.load(open("/root/.vp/BASELINE.json"))["cmd"] if Path("/root/.vp/BASE
     "cd /repo && /venv/bin/python -m pytest -ra -q -p no:cacheprovider --timeout=900 --continue-on-collection-errors --junitxml=<file>"
 
 CHECKS = {
+ "C16": dict(cat="exploration", ref="§C16, §1.1",
+    tech="property-based testing (Hypothesis) over generated DTDs: a DtdSpec generator renders the external DTD and builds documents valid by construction; oracles = libxml2 DTD validation of inputs and (in the order-preserving fragment) outputs, and equality of the infosets of doc and serialize(parse(doc)) as libxml2 reports them with the DTD's attribute defaults and fixed values applied",
+    text="Generated search over DTDs (EMPTY, ANY, #PCDATA, mixed, nested sequences/choices with ?, *, + on elements and groups; CDATA, ID, IDREF(S), NMTOKEN(S) and enumerated attributes with #REQUIRED/#IMPLIED/#FIXED/default), 1-3 documents each and generator options. Generation must succeed and import, every document must parse strictly, and the default-augmented infoset must survive the round trip (ordered and DTD-valid where repetition is confined to single elements and, with compound fields, choices of single elements). Searched, not proved.",
+    note="Stand-ins for click/jinja2/toposort, no ruff. Every content model uses an element name once (deterministic models). Recorded findings excluded by construction: xmlns declarations in the DTD, text after an ANY child in mixed content, compound fields over a choice with a sequence alternative."),
  "C13": dict(cat="exploration", ref="§C13, §1.1",
     tech="property-based testing (Hypothesis) with a hidden-model round trip: instance documents of a generated regular model (SchemaSpec with one declaration per element name; JSON object shapes) are the only input of the code generator; oracles = strict parse of every sample into the generated root class (unknown properties/attributes and converter warnings are errors) and equality of the re-serialized sample (canonical infoset from an independent libxml2 parse; JSON modulo key order and nulls)",
     text="Generated search over hidden models (nested groups with occurrence ranges, attributes, qualified/unqualified forms, mixed and simple content, recursion, every inferable builtin type; JSON objects with nested objects, arrays of scalars/objects, optional keys, nulls, empty arrays), 1-4 samples per model with canonical value spellings, and generator options. Searched, not proved.",
